@@ -18,6 +18,7 @@ pub mod c02;
 pub mod c03;
 pub mod c04;
 pub mod c11;
+pub mod c11_more;
 pub mod c17;
 pub mod c17_index;
 
